@@ -262,7 +262,8 @@ ArrOf(st, v) == st.store[v.r]
 Builtin(C, name, vs, st) ==
    LET n == Len(vs) IN
    CASE name \in {"println", "print"} ->
-            IF n # 1 \/ ~Printable(vs[1]) THEN RV(VVoid, Fault(st, "stuck:print"))
+            IF n # 1 THEN RV(VVoid, Fault(st, "stuck:print"))          \* any value can be printed; the text of composite
+                                                                      \* values is not specified (event type = the value's kind)
             ELSE RV(VVoid, Emit(st, IF name = "println" THEN 1 ELSE 0, vs[1]))
      [] name = "array_length" ->
             IF n # 1 \/ vs[1].t # "arr" THEN RV(VVoid, Fault(st, "stuck:type"))
